@@ -32,6 +32,21 @@ def register(cls):
     return cls
 
 
+def _dims(dims):
+    return [d for d in dims if d != "F"]
+
+
+def _arr_type(sn, dims):
+    """SC[sn][...] for dims; a trailing "F" asks for Fortran axis order (first axis fastest)."""
+    dd = _dims(dims)
+    if "F" in dims:
+        nd = len(dd)
+        sl = tuple(slice(d, nd - 1 - i) for i, d in enumerate(dd))
+    else:
+        sl = tuple(slice(None) if d is None else d for d in dd)
+    return SC[sn][sl if len(sl) > 1 else sl[0]]
+
+
 def gen_leaf_fields(rng, n, prefix, defaults=False):
     out = []
     for i in range(n):
@@ -43,8 +58,10 @@ def gen_leaf_fields(rng, n, prefix, defaults=False):
             out.append((nm, "str", None))
         else:
             sn = rng.choice(["Float64", "Int64", "Int32", "Float32", "Int8"])
-            dims = rng.choice([[None], [None], [3], [2, 2], [None, 2], [2, None]])
-            out.append((nm, "arr", (sn, dims)))
+            dims = rng.choice([[None], [None], [3], [2, 2], [None, 2], [2, None], [2, 3], [3, None]])
+            if len(dims) > 1 and rng.random() < 0.4:
+                dims = tuple(dims) + ("F",)  # Fortran (non-C) axis order
+            out.append((nm, "arr", (sn, list(dims))))
     return out
 
 
@@ -59,8 +76,7 @@ def make_class(rng, fields, rename_p=0.3, defaults=False, name=None):
             ft = xo.String
         elif kind == "arr":
             sn, dims = sub
-            sl = tuple(slice(None) if d is None else d for d in dims)
-            ft = SC[sn][sl if len(sl) > 1 else sl[0]]
+            ft = _arr_type(sn, dims)
         elif kind == "nested":
             ft = sub["cls"]
         elif kind == "ref":
@@ -73,9 +89,9 @@ def make_class(rng, fields, rename_p=0.3, defaults=False, name=None):
             elif kind == "str":
                 dflt = rng.choice(["", "dflt"])
                 ft = xo.Field(ft, default=dflt)
-            elif kind == "arr" and None not in sub[1]:
+            elif kind == "arr" and None not in _dims(sub[1]):
                 if rng.random() < 0.5:
-                    arr = (np.arange(int(np.prod(sub[1]))).reshape(sub[1]) + 1).astype(DT[sub[0]])
+                    arr = (np.arange(int(np.prod(_dims(sub[1])))).reshape(_dims(sub[1])) + 1).astype(DT[sub[0]])
                     dflt = arr
                     ft = xo.Field(ft, default_factory=(lambda a=arr: a.copy()))
         xof[xn] = ft
@@ -111,8 +127,7 @@ def make_subclass(rng, spec):
             xof[xn] = xo.String if dflt is None else xo.Field(xo.String, default=dflt)
         elif kind == "arr":
             sn, dims = sub
-            sl = tuple(slice(None) if d is None else d for d in dims)
-            at = SC[sn][sl if len(sl) > 1 else sl[0]]
+            at = _arr_type(sn, dims)
             xof[xn] = at if dflt is None else xo.Field(at, default_factory=(lambda a=dflt: a.copy()))
         elif kind == "nested":
             xof[xn] = sub["cls"]
@@ -176,7 +191,7 @@ class ValGenH:
 
     def array(self, sn, dims, shape=None):
         if shape is None:
-            shape = [d if d is not None else self.rng.randint(0, 4) for d in dims]
+            shape = [d if d is not None else self.rng.randint(0, 4) for d in _dims(dims)]
         a = np.zeros(shape, dtype=DT[sn])
         for i in np.ndindex(*shape):
             a[i] = self.scalar(sn)
